@@ -40,7 +40,7 @@ class Gen:
 
     def __init__(self, rng, max_depth=3, classes=True, share=0.15, renames=0.3, defaults=0.15,
                  explicit_required=0.3, inheritance=0.25, formats=False, lookalike_literals=True,
-                 shared_props=0.0):
+                 shared_props=0.0, pattern_overlap=0.0):
         self.rng = rng
         self.max_depth = max_depth
         self.classes = classes
@@ -52,6 +52,7 @@ class Gen:
         self.formats = formats
         self.lookalike_literals = lookalike_literals
         self.shared_props = shared_props
+        self.pattern_overlap = pattern_overlap
         self.next_id = 0
         self.class_count = 0
         self.shareable = []  # ids of nodes that may be referenced again
@@ -152,7 +153,11 @@ class Gen:
             shared = rng.choice(self.prop_pool)
             return {"pid": shared["pid"], "el": shared["el"], "required": shared["required"],
                     "source": shared["source"]}
-        out = {"el": self.spec(depth - 1), "required": rng.random() < 0.4, "source": None}
+        el = self.spec(depth - 1)
+        if self.pattern_overlap and rng.random() < 0.4:
+            el = {"t": rng.choice(["AllOf", "AllOf", "AnyOf"]), "kw": {},
+                  "elements": [el] + [self.spec(max(depth - 2, 0)) for _ in range(rng.randint(0, 1))]}
+        out = {"el": el, "required": rng.random() < 0.4, "source": None}
         if pyname in RENAMES:
             out["source"] = RENAMES[pyname]
         if self.shared_props:
@@ -169,7 +174,13 @@ class Gen:
 
     def object_kw(self, kw, depth, names):
         rng = self.rng
-        if rng.random() < 0.3:
+        if names and rng.random() < self.pattern_overlap:
+            # a pattern that matches the JSON name of a declared property
+            json_name = RENAMES.get(names[0], names[0])
+            first = json_name[0]
+            pattern = "^" + (first if first.isalnum() else ".")
+            kw["patternProperties"] = {pattern: self.spec(depth - 1)}
+        elif rng.random() < 0.3:
             kw["patternProperties"] = {
                 pattern: self.spec(depth - 1)
                 for pattern in rng.sample(sorted(gv.PATTERNS), k=rng.randint(1, 2))
@@ -199,6 +210,15 @@ class Gen:
             kw["required"] = list(dict.fromkeys(rng.sample(pool, k=rng.randint(1, min(3, len(pool))))))
 
     # -- nodes
+    def family(self, depth, levels=2):
+        """A class whose base class(es) are defined inline (so the ROOT of a tree can be a subclass)."""
+        node = self.klass(max(depth - 1, 0))
+        for _ in range(levels - 1):
+            child = self.klass(depth, base=node["id"])
+            child["base"] = node  # the defining node itself, not a ref
+            node = child
+        return node
+
     def klass(self, depth, base=None):
         rng = self.rng
         self.class_count += 1
